@@ -110,14 +110,27 @@ func (l *lexer) emitUppercase(t tokenType) {
 	l.start = l.pos
 }
 
-// emitSpaceRemoved passes a token to the client, with all spaces in token value removed.
+// emitSpaceRemoved passes a token to the client, with all spaces and line
+// comments in token value removed.
 func (l *lexer) emitSpaceRemoved(t tokenType) {
 	line, col := l.lineColumn()
 	val := make([]rune, 0, l.pos-l.start)
-	for _, r := range l.input[l.start:l.pos] {
+	text := l.input[l.start:l.pos]
+	for i := 0; i < len(text); {
+		if strings.HasPrefix(text[i:], "//") {
+			// skip the line comment; the line break is a space
+			end := strings.Index(text[i:], "\n")
+			if end < 0 {
+				break
+			}
+			i += end
+			continue
+		}
+		r, width := utf8.DecodeRuneInString(text[i:])
 		if !unicode.IsSpace(r) {
 			val = append(val, r)
 		}
+		i += width
 	}
 	l.tokens <- token{typ: t, val: string(val), line: line, col: col}
 	l.start = l.pos
@@ -128,6 +141,22 @@ func (l *lexer) emitEOF() {
 	line, col := l.lineColumn()
 	l.tokens <- token{typ: tokenTypeEOF, val: "EOF", line: line, col: col}
 	l.start = l.pos
+}
+
+// acceptSpaceAndComments consumes a run of spaces, line breaks and line comments.
+func (l *lexer) acceptSpaceAndComments() {
+	for {
+		l.acceptRun(" \t\r\n")
+		if !strings.HasPrefix(l.input[l.pos:], "//") {
+			return
+		}
+		i := strings.Index(l.input[l.pos:], "\n")
+		if i < 0 {
+			l.pos = len(l.input)
+			return
+		}
+		l.pos += i
+	}
 }
 
 // accept consumes the next rune if it's from the valid set.
@@ -360,19 +389,19 @@ func lexComment(l *lexer) stateFn {
 func lexDataItemSize(l *lexer) stateFn {
 	numberFound := false
 	l.accept("[")
-	l.acceptRun(" \t\r\n")
+	l.acceptSpaceAndComments()
 	if l.accept("0123456789") {
 		numberFound = true
 		l.acceptRun("0123456789")
-		l.acceptRun(" \t\r\n")
+		l.acceptSpaceAndComments()
 	}
 	if strings.HasPrefix(l.input[l.pos:], "..") {
 		l.pos += 2
-		l.acceptRun(" \t\r\n")
+		l.acceptSpaceAndComments()
 		if l.accept("0123456789") {
 			numberFound = true
 			l.acceptRun("0123456789")
-			l.acceptRun(" \t\r\n")
+			l.acceptSpaceAndComments()
 		}
 	}
 	if !(l.accept("]") && numberFound) {
